@@ -8,7 +8,7 @@ import "time"
 func init() {
 	register(&Suite{
 		Name:        "c03",
-		Rule:        "multi-round block histories: block trie over the persistent store, 1-4 transactions per round as child tries (sequential, nested grandchildren, concurrent siblings opened at the same root, parent moving on under an open child), merged / discarded / merged stale, then saved; tiny alphabets with forced prefix relations and 64-nibble keys with shared prefixes; frame check of every other open trie after every operation; non-trivial = at least one content-changing merge and one discard or rejected stale merge",
+		Rule:        "multi-round block histories: block trie over the persistent store, 1-4 transactions per round as child tries (sequential, nested grandchildren, concurrent siblings opened at the same root, parent moving on under an open child), merged / discarded / merged stale, also through a change set taken earlier with GetChanges and merged after the transaction wrote on (snap / mergesnap), then saved; tiny alphabets with forced prefix relations and 64-nibble keys with shared prefixes; frame check of every other open trie after every operation; non-trivial = at least one content-changing merge and one discard or rejected stale merge",
 		Gen:         genStoreCase(profC03),
 		CaseTimeout: 120 * time.Second, // generous: a loaded machine must not turn into an oracle failure
 		Run:         func(ops []string) CaseResult { return runStoreCase("C03", ops) },
